@@ -53,6 +53,24 @@ CHECKS = {
         "C boundary, so their values are concrete distinct ints and only shape, keys and the follow-up mutation are "
         "solver-chosen. Outside: longer containers, deeper nesting.",
    ref='5 (C11)', technique='symbolic execution (symx) of pvl.collections copy paths; bounded shapes, z3 decides every branch'),
+ 'C12': dict(
+   text="Bounded symbolic execution of the real encoders on the C01 module shapes (plus a shape whose PARAMETER NAME "
+        "is the symbolic string, for ODL/PDS3) with one symbolic string leaf of length 0-2 (quick) / 0-3 and the C01 "
+        "configurations incl. a symbolic width; the oracle is an independent line-level reader of the symbolic "
+        "output text written from the specifications (no pvl code): character set per dialect, CR-LF discipline, "
+        "delimiters, preferred begin/end keywords, block matching with the name iff aggregation_end, indentation "
+        "= level x indent, '=' alignment of sibling assignments that fit on a line, upper-case identifier names "
+        "<= 30 chars (ODL/PDS3), no TAB (PDS3), symbol strings without format effectors, final END (+ line end). "
+        "Outside: the units-only-after-numbers rule is exercised only through encoder refusals, longer leaves.",
+   ref='5 (C12)', technique='symbolic execution (symx) of the encoders; independent reader evaluated on the symbolic output; z3; bounded'),
+ 'C13': dict(
+   text="Bounded symbolic execution of encode/dumps called twice on the same module object for the C01 shapes "
+        "(duplicate keys, duplicate block names, groups that are / are not valid PDS groups, nesting) with one "
+        "symbolic string leaf (length 0-1 quick / 0-2), four encoders, several configurations: both texts identical, "
+        "structural snapshots (classes, keys, values, order at every level) before / between / after equal, except "
+        "PVLGroup -> PVLObject with identical content at the same position for PDS3; a refusal must not have "
+        "changed the argument either. Outside: modules beyond the listed shapes.",
+   ref='5 (C13)', technique='symbolic execution (symx) of the encoders with before/after snapshots; z3; bounded'),
  'C14': dict(
    text="Bounded symbolic execution of the real decode_datetime/encode_time code with ALL field values symbolic. "
         "Decode: every digit assignment of each temporal shape (2 date forms, HH:MM, HH:MM:SS, fractions of 1/3/6 "
